@@ -4,6 +4,7 @@ import (
 	"bytes"
 	"crypto/ed25519"
 	"crypto/rand"
+	"crypto/rsa"
 	"crypto/tls"
 	"crypto/x509"
 	"crypto/x509/pkix"
@@ -94,6 +95,8 @@ type HSpec struct {
 	Ctl         string // attach the scenario's shared control object of this kind to the final response (bind, search)
 	Sleep       int    // the handler works for this many virtual seconds before it writes
 	Code        int    // result code of the final response (0 = success)
+	LateWrite   string // the handler hands its ResponseWriter to a goroutine of its own and returns; the goroutine writes the final response once Notes[LateWrite] > 0
+	WaitUnbinds int    // unbind handler: block until this many unbind handlers have started
 }
 
 type logCapture struct {
@@ -132,6 +135,7 @@ type SrvOpts struct {
 	OnCloseYields  int
 	Addr           string
 	NoRun          bool
+	StartTLS       *tls.Config // configuration the StartTLS handler hands to Request.StartTLS (default: the PKI's server configuration)
 }
 
 const defaultAddr = "127.0.0.1:3890"
@@ -308,6 +312,15 @@ func (w *World) handler(route string) gldap.HandlerFunc {
 		}
 		if sp.WaitMid != "" {
 			vrt.WaitUntil(sp.WaitMid, func() bool { return w.Notes[sp.WaitMid] > 0 })
+		}
+		if sp.LateWrite != "" {
+			fin := finalFor(route, r)
+			vrt.GoNamed("late-writer", func() {
+				vrt.WaitUntil(sp.LateWrite, func() bool { return w.Notes[sp.LateWrite] > 0 })
+				write(fin)
+				vrt.Atomic(func() { w.Notes["late-write-done"]++ })
+			})
+			return
 		}
 		if !sp.NoFinal {
 			fin := finalFor(route, r)
@@ -495,6 +508,11 @@ func (w *World) buildMux(o SrvOpts) *gldap.Mux {
 				vrt.Atomic(func() { w.Notes["panicked"]++ })
 				panic("harness: unbind handler panic")
 			}
+			if n := w.spec(id).WaitUnbinds; n > 0 {
+				conn, req := r.ConnectionID(), r.ID
+				defer func() { vrt.Logf("h-exit conn=%d req=%d", conn, req) }()
+				vrt.WaitUntil("unbinds", func() bool { return w.UnbindRan >= n })
+			}
 			if n := w.spec(id).Yields + w.spec(id).YieldsAfter; n > 0 {
 				// a slow unbind handler (session clean-up): it is a handler of the connection like any other
 				conn, req := r.ConnectionID(), r.ID
@@ -557,17 +575,18 @@ func (w *World) Stop() {
 
 // Cl is a raw-bytes LDAP client thread's connection.
 type Cl struct {
-	Name    string
-	C       *vnet.Client
-	NC      net.Conn // what the client reads/writes (C, or a tls.Client over C)
-	Raw     bool     // the client has left its TLS session and reads the socket below it
-	RawTail []byte
-	Got     []byte // plaintext bytes received
-	Frames  [][]byte
-	ReadErr error
-	EOF     bool
-	DialErr error
-	Wire    []wireChunk // wiretap (raw bytes in both directions)
+	Name          string
+	C             *vnet.Client
+	NC            net.Conn // what the client reads/writes (C, or a tls.Client over C)
+	FragmentHello bool     // the TLS client's first record leaves in three segments (1 byte, 1 byte, the rest)
+	Raw           bool     // the client has left its TLS session and reads the socket below it
+	RawTail       []byte
+	Got           []byte // plaintext bytes received
+	Frames        [][]byte
+	ReadErr       error
+	EOF           bool
+	DialErr       error
+	Wire          []wireChunk // wiretap (raw bytes in both directions)
 }
 
 type wireChunk struct {
@@ -651,9 +670,37 @@ func (c *Cl) ReadAll() { c.ReadFrames(1 << 30) }
 
 func (c *Cl) Close() { _ = c.NC.Close() }
 
+// fragConn sends the first bytes a TLS client writes (the beginning of its ClientHello record) one byte per
+// segment: TLS does not care where TCP cuts a record.
+type fragConn struct {
+	net.Conn
+	done bool
+}
+
+func (f *fragConn) Write(p []byte) (int, error) {
+	if f.done || len(p) < 4 {
+		return f.Conn.Write(p)
+	}
+	f.done = true
+	n := 0
+	for _, cut := range []int{1, 2} {
+		k, err := f.Conn.Write(p[n:cut])
+		n += k
+		if err != nil {
+			return n, err
+		}
+	}
+	k, err := f.Conn.Write(p[n:])
+	return n + k, err
+}
+
 // UpgradeTLS runs a TLS client handshake over the connection.
 func (c *Cl) UpgradeTLS(cfg *tls.Config) error {
-	tc := tls.Client(c.C, cfg)
+	var under net.Conn = c.C
+	if c.FragmentHello {
+		under = &fragConn{Conn: c.C}
+	}
+	tc := tls.Client(under, cfg)
 	if err := tc.Handshake(); err != nil {
 		return err
 	}
@@ -690,6 +737,11 @@ func reqBytes(op string, id int64) []byte {
 		r = &codec.Req{Op: "unbind"}
 	case "compare":
 		return codec.Seq(codec.Int(id), codec.Cons(codec.Application, codec.AppCompareRequest, codec.Octet("cn=u"), codec.Seq(codec.Octet("cn"), codec.Octet("v")))).Bytes()
+	case "bind-badcontrol":
+		// a bind followed by a controls element whose control has an INTEGER where the controlType belongs
+		b := (&codec.Req{Op: "bind", Version: 3, DN: "cn=u", Password: "p", MsgID: id}).Node()
+		b.Kids = append(b.Kids, codec.Cons(codec.Context, 0, codec.Seq(codec.Int(42))))
+		return b.Bytes()
 	case "garbage":
 		return []byte{0x30, 0x03, 0x02, 0x01, 0x05} // a SEQUENCE with one child: fails validation
 	default:
@@ -755,6 +807,31 @@ func getPKI() *pki {
 		GetClientCertificate: func(*tls.CertificateRequestInfo) (*tls.Certificate, error) { return &otherCert, nil }}
 	thePKI = p
 	return p
+}
+
+var legacyOnce sync.Once
+var legacySrv, legacyCli *tls.Config
+
+// legacyPKI: an RSA server certificate and configurations that negotiate TLS 1.1 (Ed25519 needs TLS 1.2).
+func legacyPKI() (*tls.Config, *tls.Config) {
+	legacyOnce.Do(func() {
+		key, err := rsa.GenerateKey(rand.Reader, 2048)
+		if err != nil {
+			panic(err)
+		}
+		tmpl := &x509.Certificate{SerialNumber: big.NewInt(7), Subject: pkix.Name{CommonName: "localhost"}, NotBefore: time.Now().Add(-time.Hour), NotAfter: time.Now().Add(24 * 365 * time.Hour),
+			KeyUsage: x509.KeyUsageDigitalSignature | x509.KeyUsageKeyEncipherment | x509.KeyUsageCertSign, ExtKeyUsage: []x509.ExtKeyUsage{x509.ExtKeyUsageServerAuth}, DNSNames: []string{"localhost"}, IsCA: true, BasicConstraintsValid: true}
+		der, err := x509.CreateCertificate(rand.Reader, tmpl, tmpl, &key.PublicKey, key)
+		if err != nil {
+			panic(err)
+		}
+		cert, _ := x509.ParseCertificate(der)
+		pool := x509.NewCertPool()
+		pool.AddCert(cert)
+		legacySrv = &tls.Config{Certificates: []tls.Certificate{{Certificate: [][]byte{der}, PrivateKey: key}}, MinVersion: tls.VersionTLS10, SessionTicketsDisabled: true}
+		legacyCli = &tls.Config{RootCAs: pool, ServerName: "localhost", MinVersion: tls.VersionTLS10, MaxVersion: tls.VersionTLS11}
+	})
+	return legacySrv, legacyCli
 }
 
 // isTLSRecords reports whether b is a sequence of whole or partial TLS records (each chunk boundary aside):
